@@ -1,65 +1,188 @@
 import Driver.Common
 import Driver.C05
+import Log4rsModel.Rolling.Ext06Spec
+import Log4rsModel.Rolling.Ext17Spec
 /-
-C06 driver: the rolling-appender case format of `Driver/C05.lean` with a size trigger.
-The specification is evaluated on the implementation's observation: at every policy
-consultation the length shown equals the true size on disk (probe installed by the harness's
-`Policy` wrapper) and equals the size before the append plus the record's bytes; the active file
-is gone after the append iff that size exceeded the limit; after a successful append the active
-file is absent or holds at most `limit` bytes; at (re)open the file is kept (append mode) or
-emptied (truncate mode).
+C06 driver. Case formats:
+
+  seq   the rolling-appender format of `Driver/C05.lean` with a size trigger (executor of C05: one
+        probe value per operation)
+  seq6  the same fields; the trigger is built from a configuration document, the observation lists
+        EVERY consultation of an operation (`a=b+c=d`), and the op `R<a|t>:<limit>` restarts the
+        appender with another mode / limit
+
+The specification is `Spec06.go` (`Log4rsModel/Rolling/Ext06Spec.lean`) — the function about which
+`C06_model_meets_spec` is proved — evaluated on the implementation's observation: Ok/Err, all
+consultations (size shown vs `fs::metadata().len()` inside `Policy::process`), number of
+`Roll::roll` invocations, size of the active file in the snapshot after the operation. The model
+observation is the model's trace (`Spec06.trace6`) rendered with the whole directory, so the
+correspondence check also pins where rotated content goes.
 -/
 namespace Driver.C06
 open Log4rs.Proto Log4rs.Rolling Driver Driver.C05
-open Driver.C04 (recBytes)
+open Driver.C04 (recBytes dedup)
+
+theorem rollFn_eq_lateWrap (rs : RollSpec) : rollFn rs = Spec17.lateWrap (rollFnPlain rs) := rfl
+
+inductive Op6S where
+  | plain (o : OpSpec)
+  | reconf (am : Bool) (limit : Nat)
+
+def decOp6 (hook : Bool) (s : String) : Option Op6S :=
+  match s.toList with
+  | 'R' :: rest =>
+    match splitOnChar ':' (String.ofList rest) with
+    | [m, l] =>
+      match (if m = "a" then some true else if m = "t" then some false else none), decNat l with
+      | some am, some limit => some (.reconf am limit)
+      | _, _ => none
+    | _ => none
+  | _ => (decOp hook s).map .plain
+
+def Op6S.op6 : Op6S → Spec06.Op6
+  | .plain o => .x o.xop
+  | .reconf am n => .reconf am n
+
+structure Entry6 where
+  res : String
+  consults : List (Nat × Nat)
+  calls : Nat
+  snap : Spec.Snap
+  snapS : String
+
+def decEntry6 (s : String) : Option Entry6 :=
+  match splitOnChar '!' s with
+  | [res, cons, callsS, snapS] =>
+    let consults : Option (List (Nat × Nat)) :=
+      if cons = "-" then some [] else
+      mapM? (fun c => match splitOnChar '=' c with
+        | [a, b] => match decNat a, decNat b with
+          | some a, some b => some (a, b)
+          | _, _ => none
+        | _ => none) (splitOnChar '+' cons)
+    match consults, decSnap snapS, decNat callsS with
+    | some consults, some snap, some calls => some { res, consults, calls, snap, snapS }
+    | _, _, _ => none
+  | _ => none
 
 def activeSize (snap : Spec.Snap) : Option Nat := (snap.get? activePath).map List.length
 
-/-- walk the history; `prev` = size of the active file before the op (`none`: absent) -/
-def specGo (c : Case) (limit : Nat) : Nat → Option Nat → List OpSpec → List ObsEntry → Option String
+def Entry6.toSpec (e : Entry6) : Spec06.Entry :=
+  { ok := if e.res = "ok" then some true else if e.res = "err" then some false else none,
+    consults := e.consults, calls := e.calls, now := activeSize e.snap }
+
+/-- the events of a parsed history: the mode and limit in force change at `R` -/
+def evsOf : Bool → Nat → List Op6S → List Spec06.Ev
+  | _, _, [] => []
+  | am, n, .reconf am' n' :: ops => .restart am' n' :: evsOf am' n' ops
+  | am, n, .plain o :: ops =>
+    (match o.op, o.rec? with
+     | .append _ _, some r => Spec06.Ev.arrive (recBytes r.chunks).length o.fail.isSome
+     | .restart, _ => .restart am n
+     | _, _ => .tick) :: evsOf am n ops
+
+/-- the first violated clause, in words (for the VIOLATION line; the verdict itself is `Spec06.okEntry`) -/
+def explain (s : Spec06.S) (ev : Spec06.Ev) (e : Spec06.Entry) : String :=
+  match ev with
+  | .arrive len false =>
+    match e.consults with
+    | [] => "policy not consulted"
+    | [(shown, actual)] =>
+      let expect := s.size.getD 0 + len
+      if shown ≠ actual then "shown " ++ toString shown ++ " != on-disk " ++ toString actual
+      else if shown ≠ expect then "size " ++ toString shown ++ " != previous size + record = " ++ toString expect
+      else if e.calls ≠ (if shown > s.limit then 1 else 0) then
+        (if shown > s.limit then "no rotation request although size > limit" else "rotation requested although size <= limit") ++
+          " (" ++ toString e.calls ++ " roller invocations)"
+      else match e.ok with
+        | some true => if shown > s.limit then "file not rotated away after a successful rotation" else "active file does not hold the size shown after the append"
+        | some false => if shown > s.limit then "after a failed rotation the file is neither unchanged nor gone" else "append failed although no rotation was due"
+        | none => "append without a result"
+    | _ => "policy consulted " ++ toString e.consults.length ++ " times during one append"
+  | .arrive _ true => "an append whose encoder fails must consult nothing, request nothing, return Err and leave the file unchanged"
+  | .restart am _ => "size after reopen is not " ++ toString (if am then s.size.getD 0 else 0)
+  | .tick => "file changed (or policy consulted) by a clock tick"
+
+def specWalk : Nat → Spec06.S → List Spec06.Ev → List Spec06.Entry → Option String
   | _, _, [], [] => none
-  | k, prev, op :: ops, e :: es =>
-    let now := activeSize e.snap
-    let loc := " at op " ++ toString k
-    if e.res = "PANIC" then some ("panic" ++ loc) else
-    match op.op, op.rec? with
-    | .append _ _, some r =>
-      match e.consult with
-      | none => some ("policy not consulted" ++ loc)
-      | some (shown, actual) =>
-        let expect := prev.getD 0 + (recBytes r.chunks).length
-        if shown ≠ actual then some ("shown " ++ toString shown ++ " != on-disk " ++ toString actual ++ loc)
-        else if shown ≠ expect then some ("size " ++ toString shown ++ " != previous size + record = " ++ toString expect ++ loc)
-        else if e.res = "ok" ∧ (now.isNone ≠ (shown > limit)) then
-          some ((if shown > limit then "no rotation although size > limit" else "rotation although size <= limit") ++ loc)
-        else if e.res = "ok" ∧ (now.getD 0) > limit then some ("active file larger than limit after append" ++ loc)
-        else specGo c limit (k + 1) now ops es
-    | .restart, _ =>
-      let expect := if c.appendMode then prev.getD 0 else 0
-      if now ≠ some expect then some ("size after reopen is not " ++ toString expect ++ loc)
-      else specGo c limit (k + 1) now ops es
-    | _, _ => if now ≠ prev then some ("file changed by a clock tick" ++ loc) else specGo c limit (k + 1) now ops es
+  | k, s, ev :: evs, e :: es =>
+    if Spec06.okEntry s ev e then specWalk (k + 1) (Spec06.next s ev e) evs es
+    else some (explain s ev e ++ " at op " ++ toString k)
   | k, _, _, _ => some ("observation arity at op " ++ toString k)
 
+def limitClass (n : Nat) : String :=
+  if n ≤ 1025 then "limit-" ++ toString n else if n < 2048 then "limit-1k..2k" else if n ≤ 4097 then "limit-2k..4k"
+  else if n ≤ 65536 then "limit-4k..64k" else if n < 2 ^ 62 then "limit-64k..2^62" else "limit-huge"
+
+/-- tags derived from the OBSERVATION (what the real code was actually shown) -/
+def obsTags (s0 : Spec06.S) (evs : List Spec06.Ev) (es : List Spec06.Entry) : List String :=
+  let step := fun (acc : Spec06.S × List String × Bool) (p : Spec06.Ev × Spec06.Entry) =>
+    let (s, tags, failedRoll) := acc
+    let (ev, e) := p
+    let t := match ev, e.consults with
+      | .arrive _ false, [(shown, _)] =>
+        (if shown = s.limit then ["shown=N"] else if shown = s.limit + 1 then ["shown=N+1"]
+         else if shown + 1 = s.limit then ["shown=N-1"] else if shown > s.limit then ["shown>N+1"] else []) ++
+        (if e.ok = some false then ["roll-failed-observed"] else []) ++
+        (if failedRoll then ["append-after-failed-roll"] else []) ++
+        (if shown > s.limit ∧ e.ok = some true then ["rotated"] else [])
+      | .arrive _ true, _ => ["encoder-error-observed"]
+      | .restart am n, _ =>
+        (if n < s.limit then ["reconf-limit-lowered"] else if n > s.limit then ["reconf-limit-raised"] else []) ++
+        (if am ≠ s.am then ["reconf-mode-flipped"] else []) ++
+        (if (s.size.getD 0) > n ∧ am then ["reopen-over-limit"] else [])
+      | _, _ => []
+    (Spec06.next s ev e, tags ++ t, e.ok = some false ∧ e.now.isSome)
+  ((evs.zip es).foldl step (s0, [], false)).2.1
+
+def renderConsults (o : Option Out) : String :=
+  match o with
+  | some { consult := some (a, b), .. } => toString a ++ "=" ++ toString b
+  | _ => "-"
+
 def handle : Handler := fun cas obs =>
-  withSeq cas obs fun c ops tr es =>
-    match c.trig with
-    | .size limit =>
-      let model := encList "," (tr.map renderEntry)
-      let spec := match es with
-        | [] => "FAIL:empty observation;sig=" ++ c.sig "C06"
-        | e0 :: rest =>
-          let open0 := if c.appendMode then c.preActive.getD 0 else 0
-          if activeSize e0.snap ≠ some open0 then "FAIL:size after open is not " ++ toString open0 ++ ";sig=" ++ c.sig "C06" ++ "-open"
-          else match specGo c limit 0 (some open0) ops rest with
-            | none => "ok"
-            | some why => "FAIL:" ++ why ++ ";sig=" ++ c.sig "C06"
-      let sizes := ops.filterMap (fun o => o.rec?.map (fun r => (recBytes r.chunks).length))
-      let tags := modelTags c ops tr ++ ["limit-" ++ toString limit] ++
-        (if sizes.any (· = limit) then ["record=limit"] else []) ++
-        (if sizes.any (· = limit + 1) then ["record=limit+1"] else []) ++
-        (if (c.preActive.getD 0) > limit then ["pre>limit"] else [])
-      { model, spec, tags := if ops.isEmpty then "trivial" :: tags else tags }
-    | _ => badCase "C06 needs a size trigger"
+  match cas, obs with
+  | [kind, m, pre, arch, trig, roll, clock, opsS], [implObs] =>
+    if kind ≠ "seq" ∧ kind ≠ "seq6" then badCase "kind" else
+    match decCase m pre arch trig roll clock with
+    | none => badCase "case"
+    | some c =>
+      match c.trig with
+      | .size limit =>
+        match mapM? (fun s => if kind = "seq6" then decOp6 c.roll.hasHook s else (decOp c.roll.hasHook s).map Op6S.plain) (decList ',' opsS) with
+        | none => badCase "ops"
+        | some ops =>
+          -- the model
+          let s0 := Spec06.init6 activePath (rollFn c.roll) c.appendMode limit c.disk0 c.clock0
+          let tr := Spec06.trace6 activePath (rollFn c.roll) s0 (ops.map Op6S.op6)
+          let model := encList "," (("-!-!0!" ++ renderSnap s0.st.disk.files) ::
+            tr.map (fun e => renderRes e.1 ++ "!" ++ renderConsults e.1 ++ "!" ++ toString (callsOf e.1) ++ "!" ++ renderSnap e.2.st.disk.files))
+          if implObs = "PANIC" then
+            { model, spec := "FAIL:panic;sig=" ++ c.sig "C06" ++ "-panic", tags := ["panic"] }
+          else match mapM? decEntry6 (decList ',' implObs) with
+          | none => badCase "observation"
+          | some [] => { model, spec := "FAIL:empty observation;sig=" ++ c.sig "C06", tags := [] }
+          | some (e0 :: rest) =>
+            let open0 := if c.appendMode then c.preActive.getD 0 else 0
+            let st0 : Spec06.S := { am := c.appendMode, limit, size := some open0 }
+            let evs := evsOf c.appendMode limit ops
+            let es := rest.map Entry6.toSpec
+            let spec :=
+              if rest.any (fun e => e.res = "PANIC") then "FAIL:panic;sig=" ++ c.sig "C06" ++ "-panic"
+              else if activeSize e0.snap ≠ some open0 ∨ e0.calls ≠ 0 then
+                "FAIL:size after open is not " ++ toString open0 ++ ";sig=" ++ c.sig "C06" ++ "-open"
+              else match Spec06.go 0 st0 evs es with
+                | none => "ok"
+                | some _ => "FAIL:" ++ ((specWalk 0 st0 evs es).getD "statement violated") ++ ";sig=" ++ c.sig "C06"
+            let plain := ops.filterMap (fun o => match o with | .plain p => some p | _ => none)
+            let outs : List (Option Out × Log4rs.Roller.Disk) := tr.map (fun e => (e.1, e.2.st.disk))
+            let tags := modelTags c plain outs ++ [limitClass limit, kind] ++
+              (if (c.preActive.getD 0) > limit then ["pre>limit"] else []) ++
+              (if plain.any (fun o => o.fail.isSome) then ["encoder-error"] else []) ++
+              (if plain.any (fun o => match o.rec? with | some r => r.text ∧ (recBytes r.chunks).length ≥ 1000 | none => false) then ["text-multibyte-big"] else []) ++
+              obsTags st0 evs es
+            { model, spec, tags := if ops.isEmpty then "trivial" :: dedup tags else dedup tags }
+      | _ => badCase "C06 needs a size trigger"
+  | _, _ => badCase "arity"
 
 end Driver.C06
